@@ -196,6 +196,7 @@ def generate(rng, tier):
             if solver == "lbfgs":
                 p["m"] = rng.randrange(1, 4)
     case["params"] = p
+    case["seq_as"] = rng.choice(["list", "list", "tuple"])
     case["seed"] = rng.choice([None, None, 0, 1, 7, 123456789, 2**31])
     case["rng"] = seams.gen_rng_case(rng, p_script=0.3, horizon=200)
     case["interval"] = rng.choice([0, 1, 1, 1, 2, 3, 7])
@@ -375,7 +376,7 @@ def run_solver(case, policy, negate=False, minimize=None):
             elif solver == "evolve":
                 cross, mut = land["cross"], land["mut"]
                 if "_pop_obj" not in case:
-                    case["_pop_obj"] = [box(x) for x in p["pop"]]  # one population list, reused by every run of this case
+                    case["_pop_obj"] = [box(x) for x in p["pop"]] if case.get("seq_as") != "tuple" else tuple(box(x) for x in p["pop"])  # one population list, reused by every run of this case
                 run.result = solvor_mod("genetic").evolve(f, case["_pop_obj"], lambda a, b: box(cross[unbox(a)][unbox(b)]),
                                                          lambda a: box(mut[unbox(a)]),
                                                          elite_size=p["elite_size"], mutation_rate=p["mutation_rate"],
@@ -529,6 +530,13 @@ def execute(case) -> Outcome:
     # the runs of one case share its input objects (x0, populations), as a caller repeating a call would;
     # work on a private copy so that the recorded case stays pristine
     case = copy.deepcopy(case)
+    if case.get("seq_as") == "tuple":  # the signatures take Sequences: tuples are as legal as lists
+        for k in ("x0", "pop"):
+            if isinstance(case["params"].get(k), list):
+                case["params"][k] = tuple(case["params"][k])
+        for k in ("initial_population", "initial_positions"):
+            if case["params"].get(k):
+                case["params"][k] = tuple(tuple(x) for x in case["params"][k])
     o = Outcome()
     solver = case["solver"]
     minimize = case["minimize"]
